@@ -17,7 +17,7 @@ def run(tier, seed, pid=PID):
     ev = Evidence(pid, tier, seed, "model_checking")
     ev.assumptions = ["concretisation tables harness/concretise.py (abstract value k of a dtype class -> concrete value) are "
                       "trusted", "one tested column x next to a fixed int64 column z; multi-column interactions beyond a "
-                      "neighbouring column are not explored", "compression codecs are exercised by C02's codec sweep only",
+                      "neighbouring column are not explored", "compression codecs: the full codec set on the dtype-class sub-lattice (every class x codec x page version), none on the large option product",
                       "the independent reader harness/pqspec is trusted"]
     with scratch() as work:
         rc = _run(ev, work, tier == "thorough", pid)
@@ -40,6 +40,9 @@ def _run(ev, work, thorough, pid):
     big, resb = CW.export_cases(work, CW.BIG, "big")
     ev.add_tlc("ColumnWriterMC export: row counts 63/64/65/100 (framing of the level block changes at 64)", resb, cases=len(big))
     cases = cases + big
+    types, rest = CW.export_cases(work, CW.TYPES, "types")
+    ev.add_tlc("ColumnWriterMC export: every dtype class x codec x page version on a small option product", rest, cases=len(types))
+    cases = cases + types
     if thorough:
         huge, resh = CW.export_cases(work, CW.HUGE, "huge")
         ev.add_tlc("ColumnWriterMC export: row counts 8191/8192/8193", resh, cases=len(huge))
@@ -68,7 +71,7 @@ def _run(ev, work, thorough, pid):
             if case["n"] > 0 and (len(case["rgs"]) > 1 or any(len(g["pages"]) > 1 for g in case["rgs"])
                                   or any(c < 0 for c in case["cells"])):
                 ev.nontrivial.add(json.dumps({k: case[k] for k in ("cls", "n", "nullpat", "valpat", "mode", "rppwant", "v",
-                                                                  "rgo", "stats")}, sort_keys=True))
+                                                                  "rgo", "stats", "codec")}, sort_keys=True))
     if pid == "C02":
         sj, sr = CW.run_sweep(work)
         nfiles = 0
@@ -87,7 +90,8 @@ def _run(ev, work, thorough, pid):
     if ev.drift:
         print("DRIFT: %d mechanism disagreements recorded (see evidence)" % len(ev.drift))
     ev.rule = ("cases = the full product TLC enumerates (dtype class x row count x null pattern x value pattern x "
-               "nullability mode x page budget x page version x row-group size x statistics mode); non-trivial = distinct "
+               "nullability mode x page budget x page version x row-group size x statistics mode), the row counts around 64 "
+               "(and 8192), and every dtype class x codec x page version on a small option product; non-trivial = distinct "
                "cases with >= 2 pages or >= 2 row groups or >= 1 missing cell")
     ev.exhaustive = True
     ev.sample(cases[len(cases) // 2])
